@@ -104,7 +104,7 @@ theorem vstep_votes_behind_state (n me : Nat) (evs : List Event) (hn : ∀ e ∈
     (v : VoteRec) (hv : Msg.vote v ∈ sentOf (run (start { n := n, me := me }) evs).eff) :
     lexLe (voteKey v) ((run (start { n := n, me := me }) evs).height,
       (run (start { n := n, me := me }) evs).round, (run (start { n := n, me := me }) evs).step) :=
-  (run_core _ evs hn (ev_start_fresh _ rfl rfl)).bnd v hv
+  (run_core _ evs hn (ev_start_fresh _ rfl rfl)).bnd (.vote v) hv
 
 example : (∀ e ∈ ([.proposal 1 1 0 9 (-1), .blockPart 1 9, .async, .vote ⟨1,1,.prevote,0,some 9⟩,
     .timeout 3] : List Event), e.noCrash) := by
